@@ -933,6 +933,76 @@ fn stress_clear_vs_lock_holder(pr: &PropRun) -> LaneReport {
     rep
 }
 
+/// A panic inside the registry (the caller's closure on the first use of a key, or a retain predicate) poisons the
+/// lock of one shard. The registry documents that it recovers from poisoning; whatever it does, the entry points must
+/// keep agreeing with each other: every key the listing shows is found by get_*, with the same storage, and
+/// get_or_create_* on it reaches that storage too.
+fn poisoned_shards(pr: &PropRun) -> LaneReport {
+    let start = std::time::Instant::now();
+    let mut rep = LaneReport::named("entry-points-agree-after-a-panic-inside-the-registry");
+    let rounds = pr.cfg.cases(240, 6_000);
+    let mut bad: Option<String> = None;
+    let hook = std::panic::take_hook();
+    std::panic::set_hook(Box::new(|_| {}));
+    'rounds: for round in 0..rounds {
+        let shared = Arc::new(Shared::default());
+        let registry: Registry<Key, CountingStorage> = Registry::new(CountingStorage(shared.clone()));
+        let kind = (round % 3) as u8;
+        let via_retain = round / 3 % 2 == 1;
+        let nkeys = 2 + (round / 6 % 7) as usize;
+        let keys: Vec<Key> = (0..nkeys).map(|i| Key::from_parts("poison", vec![metrics::Label::new("k", i.to_string())])).collect();
+        for k in &keys[1..] {
+            let _: u64 = by_kind!(kind, registry, get_or_create_counter, get_or_create_gauge, get_or_create_histogram, k, |s| s.value.fetch_add(1, Ordering::SeqCst));
+        }
+        let r = std::panic::catch_unwind(std::panic::AssertUnwindSafe(|| {
+            if via_retain {
+                let mut seen = 0;
+                let f = |_: &Key, _: &Arc<Slot>| {
+                    seen += 1;
+                    if seen == 1 {
+                        panic!("harness: predicate panics");
+                    }
+                    true
+                };
+                by_kind!(kind, registry, retain_counters, retain_gauges, retain_histograms, f);
+            } else {
+                // first use of keys[0]: the closure panics after the entry was created
+                let _: u64 = by_kind!(kind, registry, get_or_create_counter, get_or_create_gauge, get_or_create_histogram, &keys[0], |_| panic!("harness: first operation panics"));
+            }
+        }));
+        let panicked = r.is_err();
+        let listing: Vec<(Key, Arc<Slot>)> = match kind {
+            0 => registry.get_counter_handles().into_iter().collect(),
+            1 => registry.get_gauge_handles().into_iter().collect(),
+            _ => registry.get_histogram_handles().into_iter().collect(),
+        };
+        let mut ctx = Ctx::default();
+        ctx.fingerprint = Some(round);
+        if panicked {
+            ctx.nontrivial("panic-while-a-shard-was-write-locked");
+        }
+        if round == 0 {
+            ctx.desc = Some("1-8 keys of one kind; the closure of a first get_or_create_* (or a retain predicate) panics and is caught; then listing, get_* and get_or_create_* are compared key by key".into());
+        }
+        rep.account(ctx);
+        for (k, slot) in &listing {
+            let got: Option<Arc<Slot>> = by_kind!(kind, registry, get_counter, get_gauge, get_histogram, k);
+            let same = got.as_ref().map(|g| Arc::ptr_eq(g, slot)).unwrap_or(false);
+            let through_goc: bool = by_kind!(kind, registry, get_or_create_counter, get_or_create_gauge, get_or_create_histogram, k, |s| Arc::ptr_eq(s, slot));
+            if !same || !through_goc {
+                bad = Some(format!("round {} (kind {}, {} keys, panic in {}): the listing shows {} but get_* returns {} and get_or_create_* reaches {} storage", round, kind, nkeys, if via_retain { "a retain predicate" } else { "the closure of a first get_or_create_*" }, k, if got.is_none() { "None" } else if same { "the same storage" } else { "another storage" }, if through_goc { "the same" } else { "another" }));
+                break 'rounds;
+            }
+        }
+    }
+    std::panic::set_hook(hook);
+    if let Some(msg) = bad {
+        rep.violations.push(Violation { lane: "entry-points-agree-after-a-panic-inside-the-registry".into(), sig: "get-disagrees-with-listing".into(), msg, bytes: vec![], sched: vec![], decoded: "deterministic loop over kinds, key counts and the place of the panic".into() });
+    }
+    rep.wall_s = start.elapsed().as_secs_f64();
+    rep
+}
+
 /// Child process: the sequential lane under a CPU affinity mask (1/2/4/16 shards).
 pub fn child(seed: u64) -> i32 {
     let ncpu = [1usize, 2, 4, 16][(seed % 4) as usize];
@@ -990,6 +1060,8 @@ pub fn run(cfg: &RunCfg, replay: Option<&str>) -> i32 {
     let r = stress_first_use_of_shared_key(&pr);
     pr.push(r);
     let r = stress_clear_vs_lock_holder(&pr);
+    pr.push(r);
+    let r = poisoned_shards(&pr);
     pr.push(r);
     let r = crate::engine::child::run_children(&pr, "C06", "shard-count-processes", pr.cfg.cases(16, 400), |seed| format!("sequential lane with CPU affinity to {} cpus", [1, 2, 4, 16][(seed % 4) as usize]));
     pr.push(r);
